@@ -1,4 +1,131 @@
-use crate::{ctx::CaseOut, Params};
-pub fn case(_idx: u64, _seed: u64, _p: &Params, o: &mut CaseOut) {
-    o.skipped = true;
+//! C18 — DistanceMatrix metrics equal their definitions for every matrix.
+
+use crate::ctx::CaseOut;
+use crate::props::c07;
+use crate::reprs::*;
+use crate::rng::{Fp, Rng};
+use crate::Params;
+use graaf::*;
+use std::fmt::Debug;
+
+fn check<W: Copy + Ord + Debug>(dm: &DistanceMatrix<W>, rows: &[Vec<W>], inf: W, o: &mut CaseOut, tag: &str) -> bool {
+    let n = rows.len();
+    o.eq(&format!("{tag}:order"), &dm.order, &n);
+    // indexing
+    let mut bad = None;
+    for u in 0..n {
+        for v in 0..n {
+            if dm[(u, v)] != rows[u][v] || dm[u * n + v] != rows[u][v] {
+                bad = Some((u, v));
+            }
+        }
+    }
+    o.check(bad.is_none(), &format!("{tag}:index"), || format!("dm[{:?}] != row/column entry", bad.unwrap()));
+    let ecc: Vec<W> = rows.iter().map(|r| *r.iter().max().unwrap()).collect();
+    o.eq(&format!("{tag}:eccentricities"), &dm.eccentricities().copied().collect::<Vec<_>>(), &ecc);
+    let diam = *ecc.iter().max().unwrap();
+    o.eq(&format!("{tag}:diameter"), dm.diameter(), &diam);
+    let min = *ecc.iter().min().unwrap();
+    let center: Vec<usize> = (0..n).filter(|&i| ecc[i] == min).collect();
+    o.eq(&format!("{tag}:center"), &dm.center(), &center);
+    let periphery: Vec<usize> = (0..n).filter(|&i| ecc[i] == diam).collect();
+    o.eq(&format!("{tag}:periphery"), &dm.periphery().collect::<Vec<_>>(), &periphery);
+    o.eq(&format!("{tag}:is_connected"), &dm.is_connected(), &ecc.iter().all(|e| *e != inf));
+    center.len() >= 2 || periphery.len() >= 2
+}
+
+pub fn case(idx: u64, seed: u64, p: &Params, o: &mut CaseOut) {
+    let mut r = Rng::for_case(18, seed, idx);
+    let max = p.usize("max_order", 12);
+    let n = match r.below(8) {
+        0 => 1,
+        1 => 2,
+        _ => r.range(1, max),
+    };
+    let kind = r.below(6);
+    let mut fp = Fp::new();
+    fp.us(kind).us(n);
+    let tie;
+    let desc;
+    match kind {
+        0 | 1 | 2 => {
+            // usize matrix written through IndexMut, tiny value sets (ties)
+            let inf = *r.pick(&[usize::MAX, 9, 100]);
+            let vals: Vec<usize> = match r.below(4) {
+                0 => vec![0, 1, inf],
+                1 => vec![0, 1, 2, 3],
+                2 => vec![inf],
+                _ => vec![0, 1, 2, 5, 7, inf],
+            };
+            let vals: Vec<usize> = vals.into_iter().filter(|&v| v <= inf).collect();
+            let mut dm = DistanceMatrix::<usize>::new(n, inf);
+            o.check(dm.dist.len() == n * n && dm.dist.iter().all(|&x| x == inf) && dm.infinity == inf, "new:not-filled-with-infinity", || format!("{:?}", dm.dist));
+            let mut rows = vec![vec![inf; n]; n];
+            let all_inf_row = if r.chance(0.2) { Some(r.below(n)) } else { None };
+            for u in 0..n {
+                for v in 0..n {
+                    let x = if Some(u) == all_inf_row { inf } else { *r.pick(&vals) };
+                    rows[u][v] = x;
+                    if r.chance(0.5) {
+                        dm[(u, v)] = x;
+                    } else {
+                        dm[u * n + v] = x;
+                    }
+                }
+            }
+            for row in &rows {
+                for &x in row {
+                    fp.us(x);
+                }
+            }
+            tie = check(&dm, &rows, inf, o, "usize");
+            desc = format!("usize matrix order {n} infinity {inf} rows {rows:?}");
+        }
+        3 | 4 => {
+            let inf = isize::MAX;
+            let vals: Vec<isize> = match r.below(3) {
+                0 => vec![-3, 0, 0, 4, inf],
+                1 => vec![-1, 0, 1],
+                _ => vec![-10, -5, 0, 5, 10, inf, inf],
+            };
+            let mut dm = DistanceMatrix::<isize>::new(n, inf);
+            let mut rows = vec![vec![inf; n]; n];
+            for u in 0..n {
+                for v in 0..n {
+                    let x = *r.pick(&vals);
+                    rows[u][v] = x;
+                    dm[(u, v)] = x;
+                }
+            }
+            for row in &rows {
+                for &x in row {
+                    fp.i(x as i64);
+                }
+            }
+            tie = check(&dm, &rows, inf, o, "isize");
+            desc = format!("isize matrix order {n} rows {rows:?}");
+        }
+        _ => {
+            // matrices produced by FloydWarshall
+            let (m, wf, fam) = c07::gen_case(&mut r, max, false);
+            if m.has_negative_circuit() {
+                o.skipped = true;
+                return;
+            }
+            let d = build_w_isize(&m);
+            let mut fw = FloydWarshall::new(&d);
+            let dm = fw.distances();
+            let rows: Vec<Vec<isize>> = (0..m.n()).map(|u| c07::ref_row(&m, u).unwrap()).collect();
+            m.fingerprint(&mut fp);
+            tie = check(dm, &rows, isize::MAX, o, "FloydWarshall");
+            desc = format!("FloydWarshall matrix of weights={wf} family={fam} {}", m.describe());
+        }
+    }
+    o.fp = fp.0;
+    o.nontrivial = tie;
+    o.bumpn("kind", kind);
+    o.bumpn("order", n);
+    if o.want_desc {
+        o.desc = desc;
+    }
 }
